@@ -460,11 +460,28 @@ func (w *World) Send(li int, b []byte, src net.UDPAddr, ifindex int, kind string
 }
 
 func (w *World) deliver(dg *DG) {
+	if !w.Up() && w.Inc > 0 && w.StartErr[w.Inc-1] == "" {
+		// still starting: a socket that is already bound receives all the same (clients retransmit while the server
+		// restarts); whatever reads it must already serve the configured chain
+		w.drainUserLog()
+		if !w.Up() {
+			w.bindPorts()
+			if dg.L < len(w.ports) && w.ports[dg.L] >= 0 && w.Sim.PortOpen(w.ports[dg.L]) {
+				w.Probe("world.delivered_during_startup")
+				w.deliverTo(dg)
+				return
+			}
+		}
+	}
 	if dg.L >= len(w.ports) || w.ports[dg.L] < 0 || !w.Up() || !w.Sim.PortOpen(w.ports[dg.L]) {
 		dg.Dropped = true
 		w.hist("dg%d %s lost: server not listening", dg.ID, dg.Kind)
 		return
 	}
+	w.deliverTo(dg)
+}
+
+func (w *World) deliverTo(dg *DG) {
 	dg.Delivered = true
 	dg.Port = w.ports[dg.L]
 	dg.DeliveredAt = w.Sim.Now()
